@@ -64,7 +64,10 @@ def _frame(payload):
     return bytes((1, (n >> 8) & 0xFF, n & 0xFF)) + payload
 
 
-def _session(cuts, name=b"dev", expected=None, msgs=((42, b"from device"), (7, b""), (300, b"x" * 40))):
+def _session(cuts, name=b"dev", expected=None, msgs=((42, b"from device"), (7, b""), (300, b"x" * 40)), deviate=None):
+    """deviate = (k, kind): the k-th data frame is tampered with (C04): 'marker' (first byte not 0x01), 'flip' (one ciphertext bit),
+    'drop', 'dup' (sent twice), 'swap' (with the next one), 'truncate' (tag cut off).  Then exactly msgs[:k] (+ the k-th once for
+    'dup') may be delivered, an error must be reported and nothing after the deviation may be delivered."""
     import asyncio as aio
     from aioesphomeapi._frame_helper.noise import APINoiseFrameHelper, ESPHOME_NOISE_BACKEND
     from noise.connection import NoiseConnection
@@ -90,9 +93,32 @@ def _session(cuts, name=b"dev", expected=None, msgs=((42, b"from device"), (7, b
         resp.read_message(w[7:])
         stream = _frame(b"\x01" + name + (b"\x00" if name is not None else b"")) if name is not None else _frame(b"\x01")
         stream += _frame(b"\x00" + resp.write_message(b""))
+        data_frames = []
         for t, p in msgs:
             hdr = bytes(((t >> 8) & 0xFF, t & 0xFF, (len(p) >> 8) & 0xFF, len(p) & 0xFF))
-            stream += _frame(resp.encrypt(hdr + p))
+            data_frames.append(_frame(resp.encrypt(hdr + p)))
+        allowed = len(msgs)
+        if deviate is not None:
+            k, kind = deviate
+            allowed = k
+            f = data_frames[k]
+            if kind == "marker":
+                data_frames[k] = bytes((2,)) + f[1:]
+            elif kind == "flip":
+                data_frames[k] = f[:5] + bytes((f[5] ^ 0x10,)) + f[6:]
+            elif kind == "drop":
+                del data_frames[k]
+            elif kind == "dup":
+                data_frames.insert(k, f)
+                allowed = k + 1
+            elif kind == "swap":
+                if k + 1 < len(data_frames):
+                    data_frames[k], data_frames[k + 1] = data_frames[k + 1], data_frames[k]
+                else:
+                    deviate, allowed = None, len(msgs)          # nothing to swap with: an undisturbed session
+            elif kind == "truncate":
+                data_frames[k] = _frame(f[3:-4])
+        stream += b"".join(data_frames)
         pos = [0] + sorted(set(c for c in cuts if 0 < c < len(stream))) + [len(stream)]
         kinds = (bytes, bytearray, memoryview)
         for i in range(len(pos) - 1):
@@ -103,6 +129,18 @@ def _session(cuts, name=b"dev", expected=None, msgs=((42, b"from device"), (7, b
                 h.connection_lost(e)
         got = [(t, d) for t, d, _ in delivered]
         problems = []
+        if deviate is not None:
+            want = [(t, bytes(p)) for t, p in msgs][:allowed]
+            if got != want:
+                problems.append(f"after deviation {deviate}: delivered {got!r}, allowed exactly {want!r}")
+            if not reported and not (deviate[1] == "drop" and deviate[0] == len(msgs) - 1):
+                problems.append(f"after deviation {deviate}: no error was reported")
+            bad = [type(e).__name__ for e in reported if type(e).__name__ not in ("ProtocolAPIError", "InvalidEncryptionKeyAPIError", "HandshakeAPIError", "BadNameAPIError", "RequiresEncryptionAPIError", "SocketClosedAPIError")]
+            if bad:
+                problems.append(f"after deviation {deviate}: unspecific error classes {bad}")
+            if deviate[1] == "marker" and reported and type(reported[0]).__name__ != "ProtocolAPIError":
+                problems.append(f"wrong marker byte reported as {type(reported[0]).__name__}")
+            return len(stream), problems
         if got != [(t, bytes(p)) for t, p in msgs]:
             problems.append(f"delivered {got!r} != sent")
         if any(not r for _, _, r in delivered):
@@ -134,6 +172,17 @@ def bounded_noise_session(opts=None):
                 _, pr = _session(cuts, name=name, expected=("dev" if name else None))
                 if pr:
                     fails.append({"cuts": list(cuts), "name": name.decode() if name else None, "problems": pr})
+                    if len(fails) >= 3:
+                        return fails
+    # deviations of C04 on the established session: each tampering of each data frame, in one chunk and frame by frame
+    n_ok, _ = _session(())
+    for k in (0, 1, 2):
+        for kind in ("marker", "flip", "drop", "dup", "swap", "truncate"):
+            for cuts in ((), tuple(range(1, n_ok + 40, 23))):
+                tried += 1
+                _, pr = _session(cuts, deviate=(k, kind))
+                if pr:
+                    fails.append({"cuts": list(cuts)[:6], "deviation": [k, kind], "problems": pr})
                     if len(fails) >= 3:
                         return fails
     bounded_noise_session.tried = tried
